@@ -12,6 +12,14 @@ Drivers/C13.lean) and pyyeti.nastran.bulk:
            independently generated variants; number fields are compared as exact decimals
            (float(Fraction) == value the code returns).
 
+Second model file lean/PyYetiVerif/Model/BulkGrid.lean: writer.vecwrite (argument packaging, the `length` rule and
+its ValueError / IndexError), wtgrids (8 / 16 wide, short form and PS / SEID form, every packaging of cp / xyz / cd / ps /
+seid), wtcoordcards, the layout of uset2bulk — exact text, the coordinate fields formatted by Python and handed over as
+opaque tokens; readers rdgrids (array mode, ragged cards padded with 0), rdcards(regex cord2, keep_name) and
+rdcord2cards (the twelve numbers per card exactly, and the final dictionary through the real n2p.build_coords), on the
+written texts and on independently rendered GRID / CORD2x files; rddmig is compared frame by frame with the frame the
+Lean model assembles (DmigRead.frame).
+
 The model-free oracle restates the property on the API: read(write(x)) == x for every pair, including
 GRID / CORD2x / uset2bulk / bulk2uset and real / complex DMIG with non-integer values.  Coordinate values
 are drawn with mixed magnitudes (up to ~12 decades on one card, tiny non-zero components next to large
@@ -31,34 +39,52 @@ import numpy as np
 from runner import Infra
 
 ID = "C13"
-LEAN_MODULES = ["PyYetiVerif.Props.C13", "PyYetiVerif.Audit.C13"]
+LEAN_MODULES = ["PyYetiVerif.Props.C13", "PyYetiVerif.Props.C13Text", "PyYetiVerif.Props.C13Dmig", "PyYetiVerif.Props.C13Grid",
+                "PyYetiVerif.Props.C13Cord", "PyYetiVerif.Audit.C13"]
 AUDIT_FILE = "PyYetiVerif/Audit/C13.lean"
 THEOREMS = [
     "PyYetiVerif.C13." + n
     for n in (
         "thru_roundtrip thru_maximal nasints_layout nasints_columns spoint_roundtrip csuper_roundtrip "
         "extrn_roundtrip set_wrap_roundtrip wrap_line_length tabled1_layout fixed_field_slicing "
-        "dmig_structure dmig_form6_iff dmig_roundtrip dmig_ncol_form9 dmig_header_ncol"
+        "dmig_structure dmig_form6_iff dmig_roundtrip dmig_ncol_form9 dmig_header_ncol "
+        "int_field_roundtrip int_field_padL set_roundtrip set_any_wrap tabled1_roundtrip "
+        "dmig_roundtrip_converse dmig_assignments_iff dmig_reader_on_written dmig_frame_roundtrip "
+        "vecwrite_length_rule vecwrite_mismatch_raises vecwrite_broadcast wtgrids_packaging wtgrids_mismatch_raises "
+        "grid_roundtrip cord2_roundtrip uset_roundtrip"
     ).split()
 ]
 TRUSTED = [
     "correspondence harness harness/props/c13.py (exact text; number fields as exact decimals)",
-    "CPython str.format for '{:8d}', '{:<8s}', '{:16.9E}' (integer rendering `dec` = Lean `toString`; "
+    "CPython str.format for '{:8d}', '{:<8s}', '{:>8}', '{:16.9E}' (integer rendering `dec` = Lean `toString`; "
     "the %E rendering of integer-valued doubles |v| < 1e9 is modelled by `fmtE9` and correspondence-checked)",
-    "numeric field values (format_float8/16, '{:16.9E}' of non-integers, float()) belong to C12; here they are "
-    "compared through the oracle to the precision of the written format",
+    "numeric field values (format_float8/16, '{:16.9E}' of non-integers, the `form` of wtgrids / wttabled1, '{:16.8e}' of "
+    "wtcoordcards, float()) belong to C12: the harness formats them with the card's own format string and hands them to the "
+    "model as opaque tokens, the theorems say the reader returns nas_sscanf(token); values are compared through the oracle "
+    "to the precision of the written format",
     "text domain of the reader model: ASCII, no tabs, no 'inf'/'nan' words, no '_' inside numbers, no INCLUDE",
     "np.allclose(m.T, m) of wtdmig is modelled as exact symmetry (correspondence uses integers |v| < 1e4, where the two coincide)",
-    "pandas MultiIndex / DataFrame construction in rddmig, n2p.addgrid / build_coords geometry (C14)",
+    "rddmig locates a cell by np.searchsorted on 10*id+dof, the model by label equality (the same for DOF 0..9); pandas "
+    "MultiIndex / DataFrame construction around the assembled matrix",
+    "vecwrite arguments are Python scalars, lists, tuples or 1-d numpy arrays (np.ndim == 2 matrices and 0-d arrays are not "
+    "used by the C13 writers)",
+    "wtcoordcards' noise floor (values below 1e-15 of the card's largest are written as 0) is applied by the harness before "
+    "formatting the nine tokens; n2p.mkcordcardinfo / build_coords / addgrid geometry is C14 (rdcord2cards is compared "
+    "through the real build_coords applied to the model's rows)",
 ]
 RULE = (
     "id lists built from run structures (singletons, runs of 2..12, line-filling lengths 0..40, unsorted and "
     "repeated ids, 1..8 digit ids), every start field 1..10, SET max_length 24..72 and short widths that force "
     "token splits, TABLED1 with 0..13 points in four formats and both widths, DMIG with grid/scalar partial-DOF "
-    "index sets, forms 1/2/6/9, types 1-4; reader variants re-render the same cards in fixed-8 / fixed-16 / "
-    "comma form with random continuation markers, comments, blank lines, case and spacing. A case is one "
+    "index sets, forms 1/2/6/9, types 1-4; vecwrite with 1..5 arguments, each a scalar, a length-1 / length-N / "
+    "other-length list, tuple or array in every order (ValueError and IndexError cases included); wtgrids with 1..9 "
+    "grids, seven formats (8 and 16 wide), cp / cd / ps / seid scalar, length-1 vector, length-N vector or '' and "
+    "xyz with 1 row, N rows or a wrong number of rows; wtcoordcards with 1..3 systems of mixed magnitude; uset2bulk of "
+    "generated USET tables with 0..3 coordinate systems; reader variants re-render the same cards in fixed-8 / "
+    "fixed-16 / comma form with random continuation markers, comments, blank lines, case and spacing (GRID cards "
+    "of different length, CORD2x cards with 11, 12, 13 fields, words, near-miss names). A case is one "
     "(writer or reader, input) pair; non-trivial = the text has more than one physical line, a THRU, a wrap, "
-    "a continuation or a non-default form; distinct by the canonical input"
+    "a continuation, a vector argument or a non-default form; distinct by the canonical input"
 )
 ASSUMPTIONS = [
     "wtcoordcards zeroes values below 1e-15 of the largest value on the card (documented noise floor): coordinate "
@@ -69,37 +95,56 @@ ASSUMPTIONS = [
     "every integer written in an 8 (16) column field has at most 8 (16) characters",
     "DMIG names have at most 8 characters and do not parse as numbers",
     "TABLED1 pair formats produce two equal-width fields whose last character is not blank and that contain no '$'",
+    "SET ids and set ids are non-negative (the reader's regular expressions are \\d+)",
+    "GRID / CORD2x coordinate formats produce fields of exactly 8 (16) columns without '$' or ',' that do not end in a blank; "
+    "the card name of wttabled1 has at most 8 (7) characters without '$', ',' or '*'",
+    "DMIG row labels are duplicate-free and column labels are duplicate-free (pandas allows duplicates; the reader then "
+    "keeps the last term: shown by example in Props/C13Dmig.lean), DOF are 0..9",
+    "wtgrids / vecwrite with no grid at all raise IndexError (modelled, not part of the round trip)",
 ]
 PARTIAL = (
-    "dmig_roundtrip is proved in one direction on the field-list level (every non-zero term of a well-shaped frame "
-    "is among the reader's assignments, through the mirror for the upper triangle of form 6); missing: the converse "
-    "(no assignment other than a true term; needs duplicate-free labels) and rddmig's pandas assembly / sorted index "
-    "(correspondence only); the theorems live on id lists / card fields / physical lines: the decimal rendering and "
-    "parsing of a single integer or real field (parse(format(n)) = n) is not proved here (C12's domain; `Fld.val` "
-    "states it) and is tied by exact-text correspondence; set_wrap_roundtrip is stated on token groups (the comma "
-    "split / THRU regular expression of rdsets is correspondence-only); tabled1_layout is stated on field lists plus "
-    "the separate column-slicing theorem fixed_field_slicing (comment stripping and rstrip of a line are "
-    "correspondence-only); GRID, CORD2x and USET round trips are oracle-only (values go through C12 formats and C14 "
-    "geometry)"
+    "the decimal rendering and parsing of a single REAL field (parse(format(x)) ~ x) is not proved here (C12's domain): "
+    "coordinates, table values and DMIG terms enter the theorems as opaque written fields and the theorems say the reader "
+    "returns nas_sscanf(field) (`nasScan`; `enc` in the DMIG theorems) — integer fields are proved exactly "
+    "(int_field_roundtrip); dmig_frame_roundtrip / dmig_reader_on_written start from the card values `rdcards` returns for "
+    "the written DMIG cards (`Dmig.written`): the step from the physical DMIG lines to those card values is tied by the "
+    "rdcards / rddmig correspondence streams only (the same step IS proved for GRID, CORD2x, TABLED1 and SET); "
+    "spoint_roundtrip / csuper_roundtrip / extrn_roundtrip remain stated on card fields (`Fld.val`), not on physical "
+    "lines; set_roundtrip assumes max_length >= the longest token (shorter max_length splits tokens: writer text is "
+    "correspondence-checked, no round trip claimed); rdcord2cards is modelled up to the twelve numbers per card handed to "
+    "n2p.build_coords and bulk2uset up to the arrays handed to n2p.addgrid (geometry: C14; tied through the real "
+    "build_coords and by the round-trip oracle); rddmig(expanded=True / square=True) and the op2 path are oracle-only"
 )
 MANIFEST = {
-    "level_text": "Proof (Lean 4, kernel-checked, standard axioms only) about an exact model of the structural layer of "
-    "the bulk-data writers and readers: THRU compression is inverted by expansion for every id list and emits THRU "
-    "exactly for maximal runs of length >= 2; wtnasints lays any list out from any start field in lines of at most "
-    "72 columns whose fields concatenate to the input; SPOINT / CSUPER / EXTRN cards read back the ids / id-dof "
-    "pairs; SET wrapping only breaks between tokens, every line fits max_length and the tokens expand to the ids; "
-    "TABLED1 lines (any number of points >= 0, both widths) slice back, column by column, to the same pair list with "
-    "ENDT last, and a line of equal-width fields slices back into those fields; DMIG: one column card per non-null "
-    "column in order, rows in order, exactly the non-zero terms (from the diagonal down for form 6, chosen only for "
-    "identical row/column index lists and a mirrored matrix), and every non-zero term of the frame is among the "
-    "reader's assignments (via the mirror for form 6). Tied to pyyeti/nastran/bulk.py by character-for-character "
-    "correspondence of writers and field-for-field correspondence of readers on written and independently rendered "
-    "texts. Right level: the layer is list/column arithmetic, fully provable; single-field number formats are C12.",
+    "level_text": "Proof (Lean 4, kernel-checked, standard axioms only) about an exact, character-level model of the bulk-data "
+    "writers and readers. Proved for all inputs: THRU compression is inverted by expansion and emits THRU exactly for "
+    "maximal runs; wtnasints lays any list out from any start field within 72 columns; SPOINT / CSUPER / EXTRN cards read "
+    "back the ids / id-dof pairs (card fields); a written integer field is read back exactly (int(format(n)) = n, any "
+    "padding); rdsets(wtset(id, ids, max_length)) = {id: ids} on physical lines for every non-empty list of non-negative "
+    "ids and every max_length >= the longest token, and for ANY way of breaking the tokens into lines (the regular "
+    "expressions of rdsets are modelled as explicit scanners); rdtabled1(wttabled1(...)) on physical lines for every "
+    "number of points >= 0 and both widths (comment stripping, rstrip, column slicing, line padding, ENDT); DMIG: card "
+    "structure, form 6 iff identical index lists and mirrored matrix, the reader's assignments are EXACTLY the non-zero "
+    "terms (both directions, mirror included), and rddmig(wtdmig(X)) = X as one statement on the card values: sorted "
+    "duplicate-free row/column index = labels of the non-null rows/columns (union for form 6), every cell = the term (0 "
+    "for a zero term, imaginary part 0 for real types), nothing lost, for forms 1/2/6/9 and types 1-4; writer.vecwrite: "
+    "the length rule (every argument longer than 1 has the row count, a later length-1 argument cannot reset it, two "
+    "different lengths raise) and the broadcast semantics for every packaging; wtgrids writes the text of the fully "
+    "expanded call for every packaging (scalar / length-1 / length-N, xyz 1 or N rows) and rdgrids(wtgrids(...)) returns "
+    "one row [id, cp, x, y, z, cd, ps, seid] per grid on physical lines (8 and 16 wide, short and PS/SEID forms, blank "
+    "fields as 0); rdcord2cards(wtcoordcards(ci)) gives [cid, type, ref, A, B, C] per card; uset2bulk's file is read back "
+    "by both readers of bulk2uset, neither disturbed by the other's cards. Real-valued fields are opaque written tokens "
+    "of which the theorems say the reader returns nas_sscanf(token). Tied to pyyeti/nastran/bulk.py and pyyeti/writer.py by "
+    "character-for-character correspondence of every writer and value-for-value correspondence of every reader on "
+    "written and independently rendered texts. Right level: the layer is list/column/character arithmetic, fully "
+    "provable; single real-field formats are C12, coordinate geometry C14.",
     "level_note": "Trusted: Lean kernel; propext, Classical.choice, Quot.sound; the Python harness; CPython integer "
-    "formatting. Not proved: parse(format(x)) of one numeric field (C12), the regular-expression SET reader, the "
-    "converse of dmig_roundtrip and the pandas assembly in rddmig (correspondence only), GRID/CORD2x/USET (oracle only, via C12/C14).",
-    "technique": "Lean 4 proof (induction over run/line/column structure) + exact-text differential correspondence "
-    "with pyyeti.nastran.bulk writers and readers",
+    "formatting. Not proved (tied by correspondence / oracle only): parse(format(x)) of one real field (C12); the step from "
+    "physical DMIG lines to the card values the DMIG theorems start from; SPOINT / CSUPER / EXTRN on physical lines "
+    "(card-field level proved); token splitting for max_length shorter than a token; n2p.build_coords / addgrid / "
+    "mkcordcardinfo behind rdcord2cards / bulk2uset / uset2bulk (C14); rddmig(expanded / square) and op2 DMIG.",
+    "technique": "Lean 4 proof (induction over run/line/column/character structure) + exact-text differential "
+    "correspondence with pyyeti.nastran.bulk / pyyeti.writer writers and readers",
 }
 
 NAMES_BAD = {"INF", "NAN", "INFINITY"}
@@ -1564,6 +1609,16 @@ def _o_grids(case):
     bulk = _bulk()
     ids, cp, xyz, cd, form, ps, seid = (case[k] for k in ("ids", "cp", "xyz", "cd", "form", "ps", "seid"))
     text = _write(bulk.wtgrids, ids, cp, np.array(xyz), cd, ps, seid, form)
+    nn = len(ids)
+    bad = [q for q, v in (("cp", cp), ("xyz", xyz), ("cd", cd), ("ps", ps), ("seid", seid))
+           if isinstance(v, list) and len(v) not in (1, nn)]
+    if bad:
+        if nn == 1 or any(isinstance(case[q], list) and len(case[q]) == 0 for q in bad):
+            return None  # empty vector, or a single grid with longer vectors: outside the documented domain
+        if text != "error:ValueError":
+            return ("wtgrids-mismatch-not-refused", "an argument with %s rows for %d grids is not refused" % (bad, nn),
+                    text[:200], "ValueError")
+        return None
     if text.startswith("error"):
         return ("wtgrids-raises", "wtgrids raises", text, "GRID cards")
     if any(len(l) > 72 for l in text.split("\n")):
@@ -1636,6 +1691,31 @@ def _gen_uset(case):
     u0 = n2p.addgrid(None, list(range(90001, 90001 + ncs)), "b", 0, np.zeros((ncs, 3)), [systems[c] for c in order], cref) if ncs else None
     uset = n2p.addgrid(None, gids, "b", cin, np.array(xyz), cout, cref)
     return uset, cref, cout
+
+
+def _o_vecwrite(case):
+    """documented semantics of writer.vecwrite, restated without the model: scalars and length-1 arrays are repeated,
+    the row count is the common length of the longer arguments, two different lengths > 1 raise ValueError"""
+    from pyyeti import writer
+
+    args = case["args"]
+    conv = [np.array(a, dtype=np.int64) if (isinstance(a, list) and case.get("arrays")) else a for a in args]
+    lens = sorted({len(a) for a in args if isinstance(a, list) and len(a) > 1})
+    text = _write(writer.vecwrite, " ".join(["{}"] * len(args)) + "\n", *conv)
+    if len(lens) > 1:
+        if text != "error:ValueError":
+            return ("vecwrite-mismatch-not-refused", "arguments of different lengths > 1 are not refused", text[:200], "ValueError")
+        return None
+    if any(isinstance(a, list) and len(a) == 0 for a in args):
+        return None  # empty argument: outside the documented domain (IndexError today)
+    n = lens[0] if lens else 1
+    want = "".join(" ".join(str(a if not isinstance(a, list) else (a[0] if len(a) == 1 else a[i])) for a in args) + "\n"
+                   for i in range(n))
+    if text != want:
+        fam = "vecwrite-length1-array-not-repeated" if any(isinstance(a, list) and len(a) == 1 for a in args) else "vecwrite-rows"
+        return (fam, "vecwrite does not write the documented rows (scalars and length-1 arrays repeated, N-vectors by element)",
+                text[:300], want[:300])
+    return None
 
 
 def _o_uset(case):
@@ -1787,6 +1867,17 @@ def _gen_oracle_cases(ctx):
             "seid": rng.choice(["", 5, [7], [rng.randint(1, 9) for _ in range(n)]]),
             "packaging": True,
         }))
+    for k in range(ctx.pick(200, 2000)):
+        n = rng.choice([1, 2, 3, 5])
+        args = []
+        for _ in range(rng.randint(1, 5)):
+            u = rng.random()
+            args.append(rng.randint(-99, 999) if u < 0.3 else [rng.randint(-99, 999)] if u < 0.55 else
+                        [rng.randint(-99, 999) for _ in range(n if u < 0.93 else rng.choice([2, 3, 4]))])
+        cases.append(("vecwrite", {"args": args, "arrays": k % 2 == 0}))
+    for _ in range(ctx.pick(40, 400)):
+        c = _gen_grid_case(rng, bad=0.3)
+        cases.append(("grids", c))
     for k in range(ctx.pick(60, 600)):
         cases.append(("uset", {"seed": rng.randint(0, 2 ** 31), "ncs": rng.randint(0 if k % 2 else 1, 4), "ngrids": rng.randint(1, 6),
                                "mixed": k % 2 == 0}))
@@ -1860,6 +1951,18 @@ def _hint_cases(hints):
                 d["kind"] = "hint"
                 d["values"] = vals
                 out.append(("dmig", d))
+            elif st == "vecwrite":
+                out.append(("vecwrite", {"args": inp["args"], "arrays": False}))
+                out.append(("vecwrite", {"args": inp["args"], "arrays": True}))
+            elif st == "wtgrids":
+                out.append(("grids", {k: inp[k] for k in ("ids", "cp", "xyz", "cd", "form", "ps", "seid")}))
+            elif st == "wtcoordcards":
+                out.append(("cord", {"systems": [(cid, {"CORD2R": 1, "CORD2C": 2, "CORD2S": 3}[nm], int(c[0][2]), c[1:])
+                                                 for cid, nm, c in inp["systems"]]}))
+            elif st == "uset2bulk":
+                out.append(("uset", inp))
+            elif st in ("rdgrids",) and "GRID" in inp.get("text", "").upper():
+                pass
         except Exception:
             continue
     return out
@@ -1883,6 +1986,9 @@ def _run_oracle_case(kind, case, known):
         return [r] if r else []
     if kind == "cord":
         r = _o_cord(case)
+        return [r] if r else []
+    if kind == "vecwrite":
+        r = _o_vecwrite(case)
         return [r] if r else []
     return []
 
